@@ -258,7 +258,12 @@ impl CompiledItem {
                 if arguments.len() >= 1 {
                     for arg in &arguments[..] {
                         args.push(' ');
-                        let replaced = arg.replace('"', "\\\"");
+                        let replaced = arg
+                            .replace('\\', "\\\\")
+                            .replace('"', "\\\"")
+                            .replace('\n', "\\n")
+                            .replace('\r', "\\r")
+                            .replace('\t', "\\t");
                         let arg = fix_arg_if_needed(&replaced)?;
                         args.push_str(arg.as_ref());
                     }
